@@ -192,6 +192,21 @@ fn collect(rep: &mut Report, v: &Value) {
     judge(rep, "collect_trusted_vec1", &key, "Array1<f64>", catch(|| same(&vals.clone().into_iter().collect_trusted_vec1::<Array1<f64>>().to_vec())), v);
     judge(rep, "collect_trusted_vec1", &key, "VecDeque<f64>", catch(|| same(&vals.titer().collect_trusted_vec1::<VecDeque<f64>>().into_iter().collect::<Vec<_>>())), v);
     judge(rep, "collect_vec1_with_len", &key, "Vec<f64>", catch(|| same(&vals.clone().into_iter().filter(|_| true).collect_vec1_with_len::<Vec<f64>>(n))), v);
+    // an element type of size ZERO (the `()` results of a validation pass): the collectors are parametric in
+    // the element type, the length is all there is to preserve (Generators.tla, ZeroSized)
+    {
+        let unit_ok = |got: usize| -> Result<(), String> { if got == n { Ok(()) } else { Err(format!("collected {got} unit items, want {n}")) } };
+        judge(rep, "collect_trusted_vec1", &key, "Vec<()>", catch(|| unit_ok(std::iter::repeat_n((), n).collect_trusted_vec1::<Vec<()>>().len())), v);
+        judge(rep, "collect_trusted_vec1", &key, "VecDeque<()>", catch(|| unit_ok(std::iter::repeat_n((), n).collect_trusted_vec1::<VecDeque<()>>().len())), v);
+        judge(rep, "collect_trusted_to_vec", &key, "Vec<()>", catch(|| unit_ok(std::iter::repeat_n((), n).collect_trusted_to_vec().len())), v);
+        judge(rep, "collect_vec1", &key, "Vec<()>", catch(|| unit_ok(std::iter::repeat_n((), n).collect_vec1::<Vec<()>>().len())), v);
+        judge(rep, "collect_vec1_with_len", &key, "Vec<()>", catch(|| unit_ok(std::iter::repeat_n((), n).filter(|_| true).collect_vec1_with_len::<Vec<()>>(n).len())), v);
+        judge(rep, "full", &key, "Vec<()>", catch(|| unit_ok(<Vec<()> as Vec1<()>>::full(n, ()).len())), v);
+        judge(rep, "try_collect_trusted_to_vec", &key, "Vec<()>", catch(|| {
+            let r: TResult<Vec<()>> = std::iter::repeat_n((), n).map(Ok).try_collect_trusted_to_vec();
+            r.map_err(|e| e.to_string()).and_then(|g| unit_ok(g.len()))
+        }), v);
+    }
     // optional items -> null-encoded
     let opt: Vec<Option<f64>> = items.iter().map(|x| if *x == -1 { None } else { Some(*x as f64) }).collect();
     judge(rep, "collect_vec1_opt", &key, "Vec<f64>", catch(|| same(&opt.clone().into_iter().collect_vec1_opt::<Vec<f64>>())), v);
